@@ -102,6 +102,11 @@ def check_inputs_intact(trees, snaps, out, what, case):
         in_ptrs.add(l.unsafe_buffer_pointer())
   for l in out_l:
     require(l.unsafe_buffer_pointer() not in in_ptrs, what + ': the output aliases a caller buffer', case=case)
+  in_np = [l for t in trees for l in leaves(t) if isinstance(l, np.ndarray)]
+  for l in leaves(out):
+    if isinstance(l, np.ndarray):
+      require(not any(l is a or np.shares_memory(l, a) for a in in_np), what + ': an output leaf IS (or shares memory with) a '
+              'NumPy array of the caller', case=case)
 
 
 def mean_case(case):
@@ -135,8 +140,11 @@ def mean_case(case):
         wt = case.get('wtype')
         conv_w = {None: lambda w: w, 'uint8': lambda w: np.uint8(w * 60), 'int8': lambda w: np.int8(w * 60),
                   'int16': lambda w: np.int16(w * 12000), 'jint8': lambda w: __import__('jax').numpy.int8(w * 60),
-                  }[wt]
-        pairs = [(trees[i], conv_w(ws[i])) for i in order]
+                  'f64arr': lambda w: np.asarray(w, np.float64), 'f64arr1': lambda w: np.array([w], np.float64),
+                  'f32arr': lambda w: np.asarray(w, np.float32)}[wt]
+        wobjs = [conv_w(w) for w in ws]          # one weight object per client, handed to both calls below
+        wsnap = [np.array(w, copy=True) for w in wobjs]
+        pairs = [(trees[i], wobjs[i]) for i in order]
         if n > 1 and evals % 3 == 0:
           # an aggregation whose input stream fails after the first client must leave nothing behind
           def failing():
@@ -173,6 +181,9 @@ def mean_case(case):
             hi = np.max([np.asarray(snaps[i][li], np.float64) for i in pos], axis=0) + 1e-5
             require(bool(np.all((g >= lo) & (g <= hi))), 'mean outside the coordinate-wise hull', case=nc)
         check_inputs_intact(trees, snaps, out, fn, nc)
+        for w, sw in zip(wobjs, wsnap):
+          require(np.array_equal(np.asarray(w), sw), fn + ': a weight object of the caller was modified', sw.tolist(),
+                  np.asarray(w).tolist(), case=nc)
         if base is None:
           base = got
         for g, b, tl in zip(got, base, tols):
@@ -233,7 +244,7 @@ def clip_case(case):
   snap = snapshot(tree)
   norm = float(np.sqrt(sum(np.sum(np.asarray(s, np.float64) ** 2) for s in snap)))
   evals = 0
-  for mult in ([case['mult']] if 'mult' in case else [0.25, 0.5, 1.0, 1.5, 2.0, 4.0, 'huge']):
+  for mult in ([case['mult']] if 'mult' in case else [0.0, 0.25, 0.5, 1.0, 1.5, 2.0, 4.0, 'huge']):
     nc = dict(case, mult=mult)
     bound = 1e6 if mult == 'huge' else (mult * norm if norm > 0 else float(mult))
     if case.get('btype'):
@@ -317,7 +328,7 @@ def plan(ctx):
   for tree in ('vec', 'nested', 'half'):
     mc.append({'tree': tree, 'weights': [1.0] * 64 + [2.0] * 36 + [0.0] * 20 + [0.5] * 8, 'jax': True, 'seed': ctx.seed,
                'all_orders': False})
-  for wt in ('uint8', 'int8', 'int16', 'jint8'):
+  for wt in ('uint8', 'int8', 'int16', 'jint8', 'f64arr', 'f64arr1', 'f32arr'):
     for ws in ([2.0, 2.0, 1.0], [2.0, 2.0, 2.0, 2.0], [0.0, 0.0], [1.0, 2.0], [2.0, 2.0]):
       for tree in ('vec', 'nested'):
         mc.append({'tree': tree, 'weights': ws, 'jax': True, 'seed': ctx.seed, 'all_orders': False, 'wtype': wt})
